@@ -568,7 +568,7 @@ Lemma acyclic_wr1 s s' (x : oid) (f : fid) (v : value) :
 Proof.
   intros Hac He Hn.
   destruct v as [|y| | | | |];
-    try (apply (acyclic_no_edges s s' Hac); intros c p h H; destruct (He c p h H) as [A|[y0 [A _]]];
+    try (apply (acyclic_no_edges s s' Hac); intros c0 p0 h0 H; destruct (He c0 p0 h0 H) as [A|[y0 [A _]]];
          [left; exact A | discriminate A]).
   destruct (Hn y eq_refl) as [N1 N2].
   destruct (f_cont (fd m f)) eqn:Hc.
@@ -616,7 +616,7 @@ Proof.
     try (apply (acyclic_no_edges s _ Hac); exact He);
     try (apply (acyclic_wr1 s _ x f v Hac He Hn)).
   - destruct (f_many (fd m f)) eqn:Hm.
-    + apply (acyclic_no_edges s _ Hac). intros c p h H. destruct (He c p h H) as [A|[B _]]; [left; exact A | discriminate B].
+    + apply (acyclic_no_edges s _ Hac). intros c p h H. destruct (He c p h H) as [A|[B _]]; [left; exact A | congruence].
     + apply (acyclic_wr1 s _ x f (f_default (fd m f)) Hac); [|apply Hn; reflexivity].
       intros c p h H. destruct (He c p h H) as [A|[_ B]]; [left; exact A | right; exact B].
   - destruct (f_many (fd m f)) eqn:Hm; [exact (acyclic_wrs s _ x f vs Hm Hac He Hn)|].
@@ -624,3 +624,429 @@ Proof.
   - exact (acyclic_wrs s _ x f vs Hf Hac He Hn).
 Qed.
 End NoCycle.
+
+(* where every reference defaults to None, `del x.f` never needs the precondition *)
+Lemma del_nocycle_default m s (x : oid) (f : fid) :
+  wf_mm m -> ref_defaults_none m -> op_nocycle m s (ODel x f).
+Proof.
+  intros W Dn Hm y Ey. split.
+  - intros Hc. rewrite (Dn f (wf_cont_ref m W f Hc) Hm) in Ey. discriminate.
+  - intros g Hg _. rewrite (Dn f (wf_opp_ref m W f g Hg) Hm) in Ey. discriminate.
+Qed.
+
+(* ---------- the universe of objects ---------- *)
+Definition in_universe (m : mm) (s : state) : Prop :=
+  forall (c p : oid) (f : fid), cont s c = Some (p, f) -> c < length (ocls m) /\ p < length (ocls m).
+
+Definition val_in_universe (m : mm) (v : value) : Prop := forall y : oid, v = VObj y -> y < length (ocls m).
+
+(* the objects an operation may link (the receiver and the written values) exist *)
+Definition op_in_universe (m : mm) (o : op) : Prop :=
+  match o with
+  | OSet x f v | OAppend x f v | OInsert x f _ v | OSetItem x f _ v =>
+    x < length (ocls m) /\ val_in_universe m v
+  | OAssign x f vs | OExtend x f vs =>
+    x < length (ocls m) /\ forall v, In v vs -> val_in_universe m v
+  | ODel x f => f_many (fd m f) = false -> x < length (ocls m) /\ val_in_universe m (f_default (fd m f))
+  | _ => True
+  end.
+
+Lemma wr_bound m (x : oid) (f : fid) (v : value) (p c : oid) :
+  x < length (ocls m) -> val_in_universe m v -> wr m x f v p c -> c < length (ocls m) /\ p < length (ocls m).
+Proof.
+  intros Hx Hv [y [Ey [[_ [Ep Ec]]|[g [_ [_ [Ep Ec]]]]]]]; subst p c; pose proof (Hv y Ey); split; assumption.
+Qed.
+
+Lemma op_edges_bound m o (p c : oid) :
+  op_in_universe m o -> op_edges m o p c -> c < length (ocls m) /\ p < length (ocls m).
+Proof.
+  intros Hu He.
+  destruct o as [x f v|x f|x f|x f vs|x f v|x f i v|x f v|x f i|x f|x f vs|x f i v|x f i|x r|r o|r o|r os|x f];
+    cbn [op_edges op_in_universe] in *; try (destruct He; fail);
+    try (destruct Hu as [Hx Hv]; exact (wr_bound m x f v p c Hx Hv He)).
+  - destruct He as [Hm He]. destruct (Hu Hm) as [Hx Hv]. exact (wr_bound m x f _ p c Hx Hv He).
+  - destruct Hu as [Hx Hv]. destruct He as [v [Hi He]]. exact (wr_bound m x f v p c Hx (Hv v Hi) He).
+  - destruct Hu as [Hx Hv]. destruct He as [v [Hi He]]. exact (wr_bound m x f v p c Hx (Hv v Hi) He).
+Qed.
+
+Theorem universe_step m s o : in_universe m s -> op_in_universe m o -> in_universe m (next m s o).
+Proof.
+  intros Hu Ho c p f H. destruct (step_edges m s o c p f H) as [A|A].
+  - exact (Hu c p f A).
+  - exact (op_edges_bound m o p c Ho A).
+Qed.
+
+Lemma in_universe_children m s :
+  in_universe m s -> forall (c p : oid) (f : fid), cont s c = Some (p, f) -> c < length (ocls m).
+Proof. intros H c p f Hc. exact (proj1 (H c p f Hc)). Qed.
+
+(* ---------- histories ---------- *)
+(* every call addresses a collection through a many-valued feature (op_fits), would not
+   close a containment cycle in the state where it runs (op_nocycle), and names
+   existing objects (op_in_universe) *)
+Fixpoint fits_history (m : mm) (s : state) (ops : list op) : Prop :=
+  match ops with
+  | [] => True
+  | o :: r => op_fits m s o /\ op_nocycle m s o /\ op_in_universe m o /\ fits_history m (next m s o) r
+  end.
+
+Lemma fits_history_many m ops : forall s, fits_history m s ops -> Forall (op_many m) ops.
+Proof.
+  induction ops as [|o ops IH]; intros s H; [constructor|].
+  destruct H as [Hf [_ [_ Hr]]]. constructor; [exact Hf | exact (IH _ Hr)].
+Qed.
+
+Theorem acyclic_history_from m : wf_mm m -> forall ops s,
+  WF m s -> acyclic_cont s -> in_universe m s -> fits_history m s ops ->
+  WF m (fold_left (next m) ops s) /\ acyclic_cont (fold_left (next m) ops s) /\
+  in_universe m (fold_left (next m) ops s).
+Proof.
+  intros W ops. induction ops as [|o ops IH]; intros s Hw Ha Hu Hf; simpl; [split; [exact Hw | split; [exact Ha | exact Hu]]|].
+  destruct Hf as [Hf [Hn [Ho Hr]]]. apply IH.
+  - apply (WF_step m W); assumption.
+  - apply (acyclic_step m W); assumption.
+  - apply universe_step; assumption.
+  - exact Hr.
+Qed.
+
+Lemma acyclic_init m : acyclic_cont (init_state m).
+Proof. intros x n H. simpl in H. discriminate. Qed.
+
+Lemma in_universe_init m : in_universe m (init_state m).
+Proof. intros c p f H. simpl in H. discriminate. Qed.
+
+Theorem acyclic_history m : wf_mm m -> ref_defaults_none m -> forall ops,
+  fits_history m (init_state m) ops ->
+  acyclic_cont (reach m ops) /\ in_universe m (reach m ops).
+Proof.
+  intros W Dn ops Hf.
+  destruct (acyclic_history_from m W ops (init_state m) (WF_init m W Dn) (acyclic_init m) (in_universe_init m) Hf)
+    as [_ H]. exact H.
+Qed.
+
+Print Assumptions acyclic_step.
+Print Assumptions universe_step.
+Print Assumptions acyclic_history.
+
+(* ---------- a boolean checker for the precondition (what the harness evaluates) ---------- *)
+Fixpoint reaches_b (fuel : nat) (s : state) (x y : oid) : bool :=
+  (x =? y) ||
+  match fuel with
+  | O => false
+  | S k => match cont s x with Some (p, _) => reaches_b k s p y | None => false end
+  end.
+
+Lemma reaches_b_complete fuel : forall s (x y : oid) n,
+  up s n x = Some y -> n <= fuel -> reaches_b fuel s x y = true.
+Proof.
+  induction fuel as [|k IH]; intros s x y n Hu Hn.
+  - assert (n = 0) by lia. subst n. simpl in Hu. inversion Hu; subst y. simpl. rewrite Nat.eqb_refl. reflexivity.
+  - destruct n as [|n].
+    + simpl in Hu. inversion Hu; subst y. simpl. rewrite Nat.eqb_refl. reflexivity.
+    + simpl in Hu. simpl. destruct (cont s x) as [[p f]|]; [|discriminate].
+      rewrite (IH s p y n Hu); [apply orb_true_r | lia].
+Qed.
+
+Lemma reaches_b_false m s (x y : oid) :
+  acyclic_cont s -> in_universe m s -> reaches_b (length (ocls m)) s x y = false ->
+  forall n, up s n x <> Some y.
+Proof.
+  intros Hac Hu Hb n H.
+  pose proof (up_bounded m s n x y Hac (in_universe_children m s Hu) H) as Hn.
+  rewrite (reaches_b_complete _ s x y n H Hn) in Hb. discriminate.
+Qed.
+
+Definition write_nocycle_b (m : mm) (s : state) (x : oid) (f : fid) (v : value) : bool :=
+  match v with
+  | VObj y =>
+    (if f_cont (fd m f) then negb (reaches_b (length (ocls m)) s x y) else true) &&
+    match f_opp (fd m f) with
+    | Some g => if f_cont (fd m g) then negb (reaches_b (length (ocls m)) s y x) else true
+    | None => true
+    end
+  | _ => true
+  end.
+
+Lemma write_nocycle_b_sound m s (x : oid) (f : fid) (v : value) :
+  acyclic_cont s -> in_universe m s -> write_nocycle_b m s x f v = true -> write_nocycle m s x f v.
+Proof.
+  intros Hac Hu Hb y Ey. subst v. cbn [write_nocycle_b] in Hb. apply andb_true_iff in Hb. destruct Hb as [B1 B2].
+  split.
+  - intros Hc. rewrite Hc in B1. apply negb_true_iff in B1. exact (reaches_b_false m s x y Hac Hu B1).
+  - intros g Hg Hc. rewrite Hg, Hc in B2. apply negb_true_iff in B2. exact (reaches_b_false m s y x Hac Hu B2).
+Qed.
+
+Definition val_in_universe_b (m : mm) (v : value) : bool :=
+  match v with VObj y => y <? length (ocls m) | _ => true end.
+
+Lemma val_in_universe_b_sound m v : val_in_universe_b m v = true -> val_in_universe m v.
+Proof. intros H y Ey. subst v. apply Nat.ltb_lt. exact H. Qed.
+
+(* op_fits, op_nocycle and op_in_universe at once *)
+Definition op_ok_b (m : mm) (s : state) (o : op) : bool :=
+  match o with
+  | OSet x f v =>
+    write_nocycle_b m s x f v && (x <? length (ocls m)) && val_in_universe_b m v
+  | OAppend x f v | OInsert x f _ v | OSetItem x f _ v =>
+    f_many (fd m f) && write_nocycle_b m s x f v && (x <? length (ocls m)) && val_in_universe_b m v
+  | OAssign x f vs =>
+    forallb (write_nocycle_b m s x f) vs && (x <? length (ocls m)) && forallb (val_in_universe_b m) vs
+  | OExtend x f vs =>
+    f_many (fd m f) && forallb (write_nocycle_b m s x f) vs && (x <? length (ocls m)) && forallb (val_in_universe_b m) vs
+  | ODel x f =>
+    f_many (fd m f) ||
+    (write_nocycle_b m s x f (f_default (fd m f)) && (x <? length (ocls m)) && val_in_universe_b m (f_default (fd m f)))
+  | ORemove x f _ | OPop x f _ | OClear x f | ODelItem x f _ => f_many (fd m f)
+  | _ => true
+  end.
+
+Lemma op_ok_b_sound m s o :
+  acyclic_cont s -> in_universe m s -> op_ok_b m s o = true ->
+  op_fits m s o /\ op_nocycle m s o /\ op_in_universe m o.
+Proof.
+  intros Hac Hu Hb. unfold op_fits.
+  destruct o as [x f v|x f|x f|x f vs|x f v|x f i v|x f v|x f i|x f|x f vs|x f i v|x f i|x r|r o|r o|r os|x f];
+    cbn [op_ok_b op_many op_nocycle op_in_universe] in *;
+    repeat (apply andb_true_iff in Hb; let B := fresh "B" in destruct Hb as [Hb B]);
+    try (split; [first [exact I | exact Hb] | split; exact I]).
+  - split; [exact I|]. split; [apply write_nocycle_b_sound; assumption|].
+    split; [apply Nat.ltb_lt; assumption | apply val_in_universe_b_sound; assumption].
+  - split; [exact I|]. apply orb_true_iff in Hb. destruct Hb as [Hb|Hb].
+    + split; intros Hm; congruence.
+    + repeat (apply andb_true_iff in Hb; let B := fresh "B" in destruct Hb as [Hb B]).
+      split; [intros _; apply write_nocycle_b_sound; assumption|]. intros _.
+      split; [apply Nat.ltb_lt; assumption | apply val_in_universe_b_sound; assumption].
+  - split; [exact I|]. rewrite forallb_forall in Hb, B. split.
+    + intros v Hi. apply write_nocycle_b_sound; [assumption | assumption | apply Hb; exact Hi].
+    + split; [apply Nat.ltb_lt; assumption | intros v Hi; apply val_in_universe_b_sound; apply B; exact Hi].
+  - split; [exact Hb|]. split; [apply write_nocycle_b_sound; assumption|].
+    split; [apply Nat.ltb_lt; assumption | apply val_in_universe_b_sound; assumption].
+  - split; [exact Hb|]. split; [apply write_nocycle_b_sound; assumption|].
+    split; [apply Nat.ltb_lt; assumption | apply val_in_universe_b_sound; assumption].
+  - split; [exact Hb|]. rewrite forallb_forall in B, B1. split.
+    + intros v Hi. apply write_nocycle_b_sound; [assumption | assumption | apply B1; exact Hi].
+    + split; [apply Nat.ltb_lt; assumption | intros v Hi; apply val_in_universe_b_sound; apply B; exact Hi].
+  - split; [exact Hb|]. split; [apply write_nocycle_b_sound; assumption|].
+    split; [apply Nat.ltb_lt; assumption | apply val_in_universe_b_sound; assumption].
+Qed.
+
+Fixpoint fits_b (m : mm) (s : state) (ops : list op) : bool :=
+  match ops with
+  | [] => true
+  | o :: r => op_ok_b m s o && fits_b m (next m s o) r
+  end.
+
+Theorem fits_b_sound m : wf_mm m -> forall ops s,
+  WF m s -> acyclic_cont s -> in_universe m s -> fits_b m s ops = true -> fits_history m s ops.
+Proof.
+  intros W ops. induction ops as [|o ops IH]; intros s Hw Ha Hu Hb; [exact I|].
+  cbn [fits_b] in Hb. apply andb_true_iff in Hb. destruct Hb as [Ho Hr].
+  destruct (op_ok_b_sound m s o Ha Hu Ho) as [Hf [Hn Hi]].
+  cbn [fits_history]. split; [exact Hf|]. split; [exact Hn|]. split; [exact Hi|].
+  apply IH; [apply (WF_step m W) | apply (acyclic_step m W) | apply universe_step | exact Hr]; assumption.
+Qed.
+
+Theorem fits_b_sound_init m : wf_mm m -> ref_defaults_none m -> forall ops,
+  fits_b m (init_state m) ops = true -> fits_history m (init_state m) ops.
+Proof.
+  intros W Dn ops. apply (fits_b_sound m W); [apply WF_init; assumption | apply acyclic_init | apply in_universe_init].
+Qed.
+
+(* ---------- corollaries in every reachable state of a fitting history ---------- *)
+Section Reachable.
+Variable m : mm.
+Hypothesis W : wf_mm m.
+Hypothesis Dn : ref_defaults_none m.
+Variable ops : list op.
+Hypothesis Hops : fits_history m (init_state m) ops.
+
+Lemma fit_WF : WF m (reach m ops).
+Proof. apply (reach_WF m W Dn). exact (fits_history_many m ops _ Hops). Qed.
+
+Lemma fit_acyclic : acyclic_cont (reach m ops).
+Proof. exact (proj1 (acyclic_history m W Dn ops Hops)). Qed.
+
+Lemma fit_universe : in_universe m (reach m ops).
+Proof. exact (proj2 (acyclic_history m W Dn ops Hops)). Qed.
+
+(* C19: eAllContents is a duplicate-free enumeration of exactly the strict descendants *)
+Theorem reach_eallcontents_exact fuel (o : oid) :
+  length (ocls m) <= fuel ->
+  NoDup (eallcontents fuel m (reach m ops) o) /\
+  (forall c, In c (eallcontents fuel m (reach m ops) o) <-> descends m (reach m ops) o c).
+Proof.
+  intros Hf. apply eallcontents_exact.
+  - exact (wf_own m _ fit_WF).
+  - exact (wf_shape m _ fit_WF).
+  - exact fit_acyclic.
+  - exact (in_universe_children m _ fit_universe).
+  - exact Hf.
+Qed.
+End Reachable.
+
+(* ---------- container chains end: depth, root_of, eResource ---------- *)
+Section Chains.
+Variable m : mm.
+Variable s : state.
+Hypothesis Hac : acyclic_cont s.
+Hypothesis Hu : in_universe m s.
+
+Lemma depth_of_no_up k : forall o : oid, up s k o = None -> exists n, n < k /\ depth s o n.
+Proof.
+  induction k as [|k IH]; intros o H; [discriminate H|].
+  simpl in H. destruct (cont s o) as [[p f]|] eqn:Ec.
+  - destruct (IH p H) as [n [Hn Hd]]. exists (S n). split; [lia|]. eapply depth_step; eauto.
+  - exists 0. split; [lia|]. constructor. exact Ec.
+Qed.
+
+(* every container chain is finite, with at most |universe| links *)
+Lemma depth_exists (o : oid) : exists n, n <= length (ocls m) /\ depth s o n.
+Proof.
+  destruct (up s (S (length (ocls m))) o) as [y|] eqn:E.
+  - pose proof (up_bounded m s _ o y Hac (in_universe_children m s Hu) E). lia.
+  - destruct (depth_of_no_up _ o E) as [n [Hn Hd]]. exists n. split; [lia | exact Hd].
+Qed.
+
+(* root_of, with the model's fuel, stops at the object without container that ends the chain *)
+Theorem root_of_ends (o : oid) :
+  chain_end s o (root_of (S (length (ocls m))) s o) /\ cont s (root_of (S (length (ocls m))) s o) = None.
+Proof.
+  destruct (depth_exists o) as [n [Hn Hd]]. apply (root_of_chain s o n); [exact Hd | lia].
+Qed.
+
+(* every object reports the resource of the container-less end of its chain *)
+Theorem eresource_of_chain_end (o r : oid) : chain_end s o r -> eresource_of m s o = eres s r.
+Proof.
+  intros Hr. unfold eresource_of. destruct (root_of_ends o) as [Hc _].
+  rewrite (chain_end_unique s o _ _ Hc Hr). reflexivity.
+Qed.
+
+Lemma up_chain_end n : forall (o r : oid), up s n o = Some r -> cont s r = None -> chain_end s o r.
+Proof.
+  induction n as [|n IH]; intros o r H Hr; simpl in H.
+  - inversion H; subst r. constructor. exact Hr.
+  - destruct (cont s o) as [[p f]|] eqn:Ec; [|discriminate]. eapply chain_up; [exact Ec | apply IH; assumption].
+Qed.
+End Chains.
+
+Section ReachableForest.
+Variable m : mm.
+Hypothesis W : wf_mm m.
+Hypothesis Dn : ref_defaults_none m.
+Variable ops : list op.
+Hypothesis Hops : fits_history m (init_state m) ops.
+
+(* C02: the containment graph of a reachable state is a forest: no object is its own
+   transitive container, an object is held by at most one containment slot, and every
+   container chain ends, within the model's fuel, at an object without container *)
+Theorem reach_forest :
+  acyclic_cont (reach m ops) /\
+  (forall (c p p' : oid) (f f' : fid),
+     f_cont (fd m f) = true -> f_cont (fd m f') = true ->
+     In (VObj c) (vals (reach m ops) (p, f)) -> In (VObj c) (vals (reach m ops) (p', f')) -> p = p' /\ f = f') /\
+  (forall o : oid,
+     chain_end (reach m ops) o (root_of (S (length (ocls m))) (reach m ops) o) /\
+     cont (reach m ops) (root_of (S (length (ocls m))) (reach m ops) o) = None).
+Proof.
+  split; [exact (fit_acyclic m W Dn ops Hops)|]. split.
+  - apply one_owner_slot. exact (fit_WF m W Dn ops Hops).
+  - intros o. apply root_of_ends; [exact (fit_acyclic m W Dn ops Hops) | exact (fit_universe m W Dn ops Hops)].
+Qed.
+
+(* C02: every object reports the resource of the container-less end r of its chain; in
+   particular every descendant of a container-less object r reports r's resource *)
+Theorem reach_reports_roots_resource (o r : oid) :
+  (chain_end (reach m ops) o r -> eresource_of m (reach m ops) o = eres (reach m ops) r) /\
+  (cont (reach m ops) r = None -> descends m (reach m ops) r o ->
+   eresource_of m (reach m ops) o = eres (reach m ops) r /\
+   eresource_of m (reach m ops) o = eresource_of m (reach m ops) r).
+Proof.
+  pose proof (fit_acyclic m W Dn ops Hops) as Hac. pose proof (fit_universe m W Dn ops Hops) as Hu.
+  pose proof (fit_WF m W Dn ops Hops) as Hw.
+  assert (A : forall o', chain_end (reach m ops) o' r -> eresource_of m (reach m ops) o' = eres (reach m ops) r).
+  { intros o'. apply eresource_of_chain_end; assumption. }
+  split; [apply A|]. intros Hr Hd.
+  destruct (descends_descends_in m _ r o Hd) as [n Hn].
+  pose proof (descends_in_up m _ n r o (wf_own m _ Hw) Hn) as Hup.
+  rewrite (A o (up_chain_end (reach m ops) n o r Hup Hr)). split; [reflexivity|].
+  symmetry. apply A. constructor. exact Hr.
+Qed.
+End ReachableForest.
+
+Print Assumptions reach_eallcontents_exact.
+Print Assumptions reach_forest.
+Print Assumptions reach_reports_roots_resource.
+
+(* ---------- non-vacuity ---------- *)
+(* class 0 "Node": kids (0, containment, many, opposite parent), parent (1, the container end) *)
+Definition ex_mm_tree : mm :=
+  {| feats := [ {| f_owner := 0; f_isref := true; f_many := true; f_unique := true; f_cont := true;
+                   f_opp := Some 1; f_type := TClass 0; f_default := VNone |};
+                {| f_owner := 0; f_isref := true; f_many := false; f_unique := true; f_cont := false;
+                   f_opp := Some 0; f_type := TClass 0; f_default := VNone |} ];
+     conf := [(0, 0)]; ocls := [0; 0; 0; 0]; enames := []; nres := 1 |}.
+
+Ltac tcase f := destruct f as [|[|f]]; [| |destruct f]; cbn.
+
+Lemma ex_mm_tree_wf : wf_mm ex_mm_tree /\ ref_defaults_none ex_mm_tree.
+Proof.
+  split; [constructor|].
+  - intros f g. tcase f; intros H; inversion H; reflexivity.
+  - intros f g. tcase f; intros H; try reflexivity; discriminate.
+  - intros f. tcase f; intros H; try reflexivity; discriminate.
+  - intros f. tcase f; intros H _; try reflexivity; discriminate.
+  - intros f g. tcase f; intros H H2; try discriminate; inversion H; subst g; split; reflexivity.
+  - intros f. tcase f; intros H H2; try reflexivity; discriminate.
+Qed.
+
+(* nesting, a re-parenting (2 moves from 1.kids to 0.kids), a move through the container
+   end (2.parent = 1), a grandchild, Resource.append of the contained 2 (it leaves 1),
+   an assignment that takes the root 2 back under 0 while releasing 1, a remove that
+   fails (KeyError, nothing changes) and `del 3.parent`, which takes 3 out of 2.kids *)
+Definition ex_tree_history : list op :=
+  [OAppend 0 0 (VObj 1); OAppend 1 0 (VObj 2); OAppend 0 0 (VObj 2); OSet 2 1 (VObj 1);
+   OExtend 2 0 [VObj 3]; ORAppend 0 2; OAssign 0 0 [VObj 2]; ORemove 0 0 (VObj 3); ODel 3 1].
+
+Example fits_history_witness :
+  fits_history ex_mm_tree (init_state ex_mm_tree) ex_tree_history /\
+  (let s := reach ex_mm_tree (firstn 5 ex_tree_history) in
+   cont s 1 = Some (0, 0) /\ cont s 2 = Some (1, 0) /\ cont s 3 = Some (2, 0) /\
+   eallcontents 5 ex_mm_tree s 0 = [1; 2; 3]) /\
+  (let s := reach ex_mm_tree (firstn 6 ex_tree_history) in
+   cont s 2 = None /\ rcont s 0 = [2] /\ vals s (1, 0) = [] /\ eresource_of ex_mm_tree s 3 = Some 0) /\
+  (let s := reach ex_mm_tree ex_tree_history in
+   cont s 1 = None /\ cont s 2 = Some (0, 0) /\ cont s 3 = None /\ rcont s 0 = [] /\
+   vals s (2, 0) = [] /\ eallcontents 5 ex_mm_tree s 0 = [2]).
+Proof.
+  split.
+  - destruct ex_mm_tree_wf as [W D]. apply (fits_b_sound_init ex_mm_tree W D). vm_compute. reflexivity.
+  - vm_compute. repeat split; reflexivity.
+Qed.
+
+(* the excluded calls really close a cycle in the model: x.kids.append(x), putting an
+   object under its own child, and the same through the container end *)
+Example cycle_excluded :
+  let m := ex_mm_tree in
+  let s := reach m [OAppend 0 0 (VObj 1)] in
+  (op_ok_b m s (OAppend 0 0 (VObj 0)) = false /\ ~ op_nocycle m s (OAppend 0 0 (VObj 0)) /\
+   ~ acyclic_cont (next m s (OAppend 0 0 (VObj 0)))) /\
+  (op_ok_b m s (OAppend 1 0 (VObj 0)) = false /\ ~ op_nocycle m s (OAppend 1 0 (VObj 0)) /\
+   ~ acyclic_cont (next m s (OAppend 1 0 (VObj 0)))) /\
+  (op_ok_b m s (OSet 0 1 (VObj 1)) = false /\ ~ op_nocycle m s (OSet 0 1 (VObj 1)) /\
+   ~ acyclic_cont (next m s (OSet 0 1 (VObj 1)))) /\
+  (* while the invariant WF holds even there *)
+  WF m (next m s (OAppend 1 0 (VObj 0))).
+Proof.
+  cbv zeta. split; [|split; [|split]].
+  - split; [vm_compute; reflexivity|]. split.
+    + intros H. destruct (H 0 eq_refl) as [N _]. apply (N eq_refl 0). reflexivity.
+    + intros H. apply (H 0 0). vm_compute. reflexivity.
+  - split; [vm_compute; reflexivity|]. split.
+    + intros H. destruct (H 0 eq_refl) as [N _]. apply (N eq_refl 1). vm_compute. reflexivity.
+    + intros H. apply (H 0 1). vm_compute. reflexivity.
+  - split; [vm_compute; reflexivity|]. split.
+    + intros H. destruct (H 1 eq_refl) as [_ N]. apply (N 0 eq_refl eq_refl 1). vm_compute. reflexivity.
+    + intros H. apply (H 0 1). vm_compute. reflexivity.
+  - destruct ex_mm_tree_wf as [W D]. apply (WF_step _ W); [|reflexivity].
+    apply (reach_WF _ W D). repeat constructor.
+Qed.
